@@ -27,6 +27,8 @@ MsgsSt(fps) ==
 AppsSmall == {<<>>}
 AppsRich == {<<>>, <<32802, 6, 36, 32802>>, <<8, 32808, 28>>}
 
+\* schedule-focused runs: one late success response is all the server does
+MsgsSched == {MkMsg("tx", TRUE, "success", "absent", "absent", "absent")}
 MsgsA == MsgsNoMech({"absent"})
 MsgsB == MsgsNoMech({"valid", "invalid", "absent"})
 MsgsC == MsgsSt({"absent"})
